@@ -20,8 +20,8 @@ Theorem cash_detects_4 hrp s1 s2 p1 : cash_decode hrp s1 = Ok p1 ->
   data_corrupted cash_sep cash_window s1 s2 -> forall p2, cash_decode hrp s2 <> Ok p2.
 Proof.
   intros D1 (h & t1 & t2 & E1 & E2 & Hsep & Hlen & HL & Hh) [nv2 dt2] D2. destruct p1 as [nv1 dt1].
-  apply cash_decode_ok_iff in D1. destruct D1 as (_ & _ & syms1 & b1 & L1 & S1 & _ & V1 & _).
-  apply cash_decode_ok_iff in D2. destruct D2 as (_ & _ & syms2 & b2 & L2 & S2 & _ & V2 & _).
+  apply cash_decode_ok_iff in D1. destruct D1 as (_ & _ & _ & syms1 & b1 & L1 & S1 & _ & V1 & _).
+  apply cash_decode_ok_iff in D2. destruct D2 as (_ & _ & _ & syms2 & b2 & L2 & S2 & _ & V2 & _).
   assert (Hs : ~ In cash_sep bech32_charset) by (apply (sep_stable cash_sep); right; right; left; reflexivity).
   rewrite L1 in E1. apply split_at_last in E1; [|apply (sep_not_in_syms bech32_charset cash_sep Hs); exact S1|exact Hsep].
   destruct E1 as [<- <-]. rewrite L2 in E2. apply app_inv_head in E2.
